@@ -28,7 +28,7 @@ STUB = ["the map (SimMap) incl. attribution of cost calls to work items", "cost/
 LEVEL_TEXT = ("seeded search over ensemble configurations, map schedules and drive modes; reduction, accounting and per-member obligations are "
               "recomputed from the real cost-call log attributed to members by the map peer")
 LEVEL_NOTE = "trusts the scripted peers' call log and the map peer's item attribution; sampling, not proof"
-RUN_WALL = 60
+RUN_WALL = 150
 OPS_KEY = 'none'
 
 
